@@ -620,6 +620,9 @@ func (w *c04walker) cond(e ast.Expr) string {
 func init() {
 	register("C04", func(x *X) error {
 		x.UseNormalizedAST()
+		// the tag matcher of setWeight/delRoute, translated from the source on every run (xlate.go);
+		// Props/C04Xlate.lean proves the translation equal to the model's containsAll
+		xlateEmit(x, "route/route.go", []xlSpec{{"", "contains", "XContains", nil, nil, "Bool"}})
 		w := &c04walker{x: x, dir: "route", global: map[string]string{}, stack: map[string]bool{}}
 
 		// package-level error variables are named by their message
@@ -808,6 +811,76 @@ func init() {
 		} else {
 			x.fail("Picker[\"rnd\"] does not name a function of the package")
 		}
+
+		// --- wiring: which picker the proxies hand to the lookups (main.go, proxy/grpc_handler.go), and which
+		// strategies the configuration admits. No stream drives main(): the streams call route.Picker["rr"|"rnd"]
+		// themselves, so "proxy.strategy=rr really is the round-robin picker" is read from the source.
+		var wiring []string
+		for _, dir := range []string{".", "proxy"} {
+			for _, f := range x.files(dir) {
+				for _, d := range f.Decls {
+					fd, ok := d.(*ast.FuncDecl)
+					if !ok || fd.Body == nil {
+						continue
+					}
+					defsOf := map[string]string{}
+					ast.Inspect(fd.Body, func(n ast.Node) bool {
+						if as, ok := n.(*ast.AssignStmt); ok && len(as.Lhs) == 1 && len(as.Rhs) == 1 {
+							if id, ok := as.Lhs[0].(*ast.Ident); ok {
+								defsOf[id.Name] = x.src(as.Rhs[0])
+							}
+						}
+						return true
+					})
+					ast.Inspect(fd.Body, func(n ast.Node) bool {
+						c, ok := n.(*ast.CallExpr)
+						if !ok {
+							return true
+						}
+						sel, ok := c.Fun.(*ast.SelectorExpr)
+						if !ok || x.src(sel.X) != "route.GetTable()" {
+							return true
+						}
+						pos := -1
+						switch sel.Sel.Name {
+						case "Lookup":
+							pos = 2
+						case "LookupHost":
+							pos = 1
+						}
+						if pos < 0 || pos >= len(c.Args) {
+							return true
+						}
+						arg := x.src(c.Args[pos])
+						if id, ok := c.Args[pos].(*ast.Ident); ok {
+							if def, ok := defsOf[id.Name]; ok {
+								arg = def
+							}
+						}
+						wiring = append(wiring, sel.Sel.Name+" <- "+arg)
+						return true
+					})
+				}
+			}
+		}
+		x.defSortedStrList("lookupPickerArgs", wiring)
+		var pickerKeys []string
+		for k := range pickers {
+			pickerKeys = append(pickerKeys, k)
+		}
+		x.defSortedStrList("pickerKeys", pickerKeys)
+		var strat []string
+		for _, f := range x.files("config") {
+			ast.Inspect(f, func(n ast.Node) bool {
+				if is, ok := n.(*ast.IfStmt); ok {
+					if c := x.src(is.Cond); strings.Contains(c, "Proxy.Strategy") {
+						strat = append(strat, c)
+					}
+				}
+				return true
+			})
+		}
+		x.defStrList("strategyChecks", strat)
 
 		// --- lookup's shortcuts, through the exported Table.Lookup ---
 		if lk := x.funcDecl("route", "Table", "Lookup"); lk != nil {
